@@ -44,7 +44,7 @@ Proof.
       destruct (parse_body [] r) as [[d rest']|] eqn:E; [|discriminate].
       intro H. inversion H; subst. apply IH in E; [|reflexivity]. destruct E as (E & Dd & Wr).
       cbn [rev app] in E. split; [|split].
-      * unfold flat. cbn [flat_map fst snd]. fold (flat rest'). rewrite E. now rewrite <- app_assoc.
+      * unfold flat. cbn [flat_map fst snd]. fold (flat rest'). now rewrite E.
       * now apply all_digits_rev.
       * constructor; [split; assumption|assumption].
 Qed.
@@ -86,3 +86,593 @@ Proof.
   unfold conv, key. destruct (parse_conv v) as [c|] eqn:E; [|discriminate]. intros _.
   apply parse_conv_spec in E as [W P]. eauto.
 Qed.
+
+(* ---------------------------------------------------------------- printed parts *)
+
+Lemma all_digits_forall d : all_digits d = true -> forallb is_digit d = true /\ d <> [].
+Proof.
+  unfold all_digits. intro H. apply andb_true_iff in H as [N D]. split; [assumption|now apply nonempty_true_iff].
+Qed.
+
+Lemma flat_forallb (q : ascii -> bool) rest :
+  (forall c, is_sep c = true -> q c = true) -> (forall c, is_digit c = true -> q c = true) ->
+  wf_rest rest -> forallb q (flat rest) = true.
+Proof.
+  intros Hs Hd W. induction W as [|[s d] rest [S D] W IH]; [reflexivity|].
+  cbn [fst snd] in *. change (flat ((s, d) :: rest)) with (s :: d ++ flat rest). cbn [forallb].
+  rewrite forallb_app_iff, IH, (Hs s S). apply all_digits_forall in D as [D _].
+  now rewrite (forallb_impl _ _ _ Hd D).
+Qed.
+
+Lemma part_forallb (q : ascii -> bool) l d0 rest :
+  (forall c, is_alpha c = true -> q c = true) ->
+  (forall c, is_sep c = true -> q c = true) -> (forall c, is_digit c = true -> q c = true) ->
+  wf_part (l, d0, rest) -> forallb q (print_part (l, d0, rest)) = true.
+Proof.
+  intros Ha Hs Hd (L & _ & D & W). cbn [print_part]. fold (flat rest).
+  rewrite !forallb_app_iff, (flat_forallb q rest Hs Hd W), (forallb_impl _ _ _ Ha L).
+  apply all_digits_forall in D as [D _]. now rewrite (forallb_impl _ _ _ Hd D).
+Qed.
+
+Lemma part_notpm p : wf_part p -> forallb notpm (print_part p) = true.
+Proof. destruct p as [[l d0] rest]. apply part_forallb; [apply alpha_notpm|apply sep_notpm|apply digit_notpm]. Qed.
+
+Lemma wf_char_alpha c : is_alpha c = true -> wf_char c = true.
+Proof. unfold wf_char. now intros ->. Qed.
+Lemma wf_char_digit c : is_digit c = true -> wf_char c = true.
+Proof. unfold wf_char. intros ->. now rewrite orb_true_r. Qed.
+Lemma wf_char_sep c : is_sep c = true -> wf_char c = true.
+Proof. unfold wf_char. intros ->. now rewrite !orb_true_r. Qed.
+
+Lemma part_wf_name p : wf_part p -> wf_name (print_part p) = true.
+Proof. destruct p as [[l d0] rest]. apply part_forallb; [apply wf_char_alpha|apply wf_char_sep|apply wf_char_digit]. Qed.
+
+Lemma part_nonempty p : wf_part p -> print_part p <> [].
+Proof.
+  destruct p as [[l d0] rest]. intros (_ & _ & D & _). apply all_digits_forall in D as [_ D].
+  cbn [print_part]. destruct l; [|discriminate]. destruct d0; [congruence|discriminate].
+Qed.
+
+Lemma last_opt_snoc {A} (l : list A) c : last_opt (l ++ [c]) = Some c.
+Proof.
+  induction l as [|x l IH]; [reflexivity|]. cbn [app last_opt].
+  destruct (l ++ [c]) eqn:E; [destruct l; discriminate|]. exact IH.
+Qed.
+
+(* a text that is all digits, or whose last character that is not a digit is neither m nor
+   p, does not end in m<digits> / p<digits> *)
+Lemma mp_suffix_none x :
+  forallb is_digit x = true \/
+  (exists base c d, x = base ++ c :: d /\ forallb is_digit d = true /\ is_digit c = false /\
+                    ascii_eqb c c_m || ascii_eqb c c_p = false) ->
+  mp_suffix x = None.
+Proof.
+  unfold mp_suffix. intros [H|[base [c [d [-> [D [C M]]]]]]].
+  - rewrite span_all by (now rewrite forallb_rev). now destruct (rev x).
+  - rewrite rev_app_distr. cbn [rev]. rewrite <- app_assoc. cbn [app].
+    rewrite span_stop by (rewrite ?forallb_rev; assumption). rewrite M. now destruct (rev d).
+Qed.
+
+Lemma part_mp_suffix p : wf_part p -> mp_suffix (print_part p) = None.
+Proof.
+  destruct p as [[l d0] rest]. intros (L & M & D & W). apply mp_suffix_none. cbn [print_part]. fold (flat rest).
+  destruct (all_digits_forall _ D) as [Dd _].
+  destruct rest as [|sd rest0].
+  - cbn [flat flat_map]. rewrite app_nil_r.
+    destruct l as [|c0 l0]; [now left|]. right.
+    destruct (@exists_last _ (c0 :: l0)) as [l' [c E]]; [discriminate|]. rewrite E in *.
+    exists l', c, d0. rewrite <- app_assoc. split; [reflexivity|]. split; [assumption|].
+    unfold ends_mp in M. rewrite last_opt_snoc in M. split; [|assumption].
+    rewrite forallb_app_iff in L. apply andb_true_iff in L as [_ L]. cbn [forallb] in L.
+    apply andb_true_iff in L as [L _]. now apply alpha_not_digit.
+  - right. destruct (@exists_last _ (sd :: rest0)) as [rest' [[s d] E]]; [discriminate|]. rewrite E in *.
+    unfold wf_rest in W. apply Forall_app in W as [_ W]. inversion W as [|? ? [S Ds] _]; subst. cbn [fst snd] in *.
+    exists (l ++ d0 ++ flat rest'), s, d. split.
+    + unfold flat. rewrite flat_map_app. cbn [flat_map fst snd]. now rewrite app_nil_r, <- !app_assoc.
+    + split; [now apply all_digits_forall in Ds as [? _]|]. split; [now apply sep_not_digit|now apply sep_not_mp].
+Qed.
+
+Lemma split_simple_eq x :
+  forallb notpm x = true -> x <> [] ->
+  split_version x =
+  match mp_suffix x with
+  | Some (c, ds, base) => if ascii_eqb c c_m then Ok (base, ds, []) else Ok (base, [], ds)
+  | None => Ok (x, [], [])
+  end.
+Proof.
+  intros H N. destruct x as [|c0 x0]; [congruence|].
+  unfold split_version. rewrite (split_on_nodelim c_minus _ (notpm_no_minus _ H)). simpl length.
+  change (2 <? 1) with false. cbv iota. rewrite (span_all _ _ H). reflexivity.
+Qed.
+
+Lemma part_split p : wf_part p -> split_version (print_part p) = Ok (print_part p, [], []).
+Proof.
+  intro W. rewrite split_simple_eq; [|now apply part_notpm|now apply part_nonempty].
+  now rewrite part_mp_suffix.
+Qed.
+
+Lemma split_dotus_nosep a : forallb (fun c => negb (is_sep c)) a = true -> split_dotus a = [a].
+Proof.
+  induction a as [|c a IH]; [reflexivity|]. cbn [forallb split_dotus]. intro H.
+  apply andb_true_iff in H as [Hc Ha]. apply negb_true_iff in Hc. now rewrite Hc, IH.
+Qed.
+
+Lemma split_dotus_app a s r :
+  forallb (fun c => negb (is_sep c)) a = true -> is_sep s = true ->
+  split_dotus (a ++ s :: r) = a :: split_dotus r.
+Proof.
+  intros Ha Hs. induction a as [|c a IH]; cbn [app split_dotus].
+  - now rewrite Hs.
+  - cbn [forallb] in Ha. apply andb_true_iff in Ha as [Hc Ha]. apply negb_true_iff in Hc.
+    now rewrite Hc, IH.
+Qed.
+
+Lemma split_dotus_flat rest : forall a,
+  forallb (fun c => negb (is_sep c)) a = true -> wf_rest rest ->
+  split_dotus (a ++ flat rest) = a :: map snd rest.
+Proof.
+  induction rest as [|[s d] rest IH]; intros a Ha W.
+  - cbn [flat flat_map map]. rewrite app_nil_r. now apply split_dotus_nosep.
+  - inversion W as [|? ? [S D] W']; subst. cbn [fst snd] in *.
+    change (flat ((s, d) :: rest)) with (s :: d ++ flat rest). cbn [map snd].
+    rewrite split_dotus_app by assumption. f_equal. apply IH; [|assumption].
+    apply all_digits_forall in D as [D _]. eapply forallb_impl; [|exact D].
+    intros c Hc. now rewrite (digit_not_sep c Hc).
+Qed.
+
+Lemma part_components l d0 rest :
+  wf_part (l, d0, rest) -> split_dotus (print_part (l, d0, rest)) = (l ++ d0) :: map snd rest.
+Proof.
+  intros (L & _ & D & W). cbn [print_part]. fold (flat rest). rewrite app_assoc.
+  apply split_dotus_flat; [|assumption]. rewrite forallb_app_iff. apply all_digits_forall in D as [D _].
+  apply andb_true_iff. split; (eapply forallb_impl; [|eassumption]); intros c Hc.
+  - now rewrite (alpha_not_sep c Hc).
+  - now rewrite (digit_not_sep c Hc).
+Qed.
+
+(* ---------------------------------------------------------------- how conventional names split *)
+
+Lemma split_version_nonnil v :
+  v <> [] ->
+  split_version v =
+  if 2 <? length (split_on c_minus v) then Ok (v, [], [])
+  else
+    let (g1, r) := span notpm v in
+    if nonempty g1 then
+      let (eee, r1) := opt_group c_minus r in
+      let (fff, _) := opt_group c_plus r1 in
+      if nonempty eee || nonempty fff then Ok (g1, eee, fff)
+      else match mp_suffix v with
+           | Some (c, ds, base) => if ascii_eqb c c_m then Ok (base, ds, []) else Ok (base, [], ds)
+           | None => Ok (g1, [], [])
+           end
+    else Err Crash.
+Proof. destruct v; [congruence|reflexivity]. Qed.
+
+Lemma opt_group_take d xs r :
+  forallb notpm xs = true -> xs <> [] -> (r = [] \/ exists c r', r = c :: r' /\ notpm c = false) ->
+  opt_group d (d :: xs ++ r) = (xs, r).
+Proof.
+  intros H N R. unfold opt_group. rewrite ascii_eqb_refl.
+  assert (S : span notpm (xs ++ r) = (xs, r)).
+  { destruct R as [->|[c [r' [-> Hc]]]]; [rewrite app_nil_r; now apply span_all|now apply span_stop]. }
+  rewrite S. apply nonempty_true_iff in N. now rewrite N.
+Qed.
+
+Lemma split_pst xp xs xt :
+  forallb notpm xp = true -> xp <> [] -> forallb notpm xs = true -> xs <> [] ->
+  forallb notpm xt = true -> xt <> [] ->
+  split_version (xp ++ c_minus :: xs ++ c_plus :: xt) = Ok (xp, xs, xt).
+Proof.
+  intros Hp Np Hs Ns Ht Nt.
+  rewrite split_version_nonnil by (destruct xp; [congruence|discriminate]).
+  rewrite split_on_app by (now apply notpm_no_minus).
+  rewrite split_on_nodelim.
+  2:{ rewrite mem_ascii_app, (notpm_no_minus _ Hs). cbn [mem_ascii orb].
+      change (ascii_eqb c_minus c_plus) with false. cbv iota. now apply notpm_no_minus. }
+  cbn [length]. change (2 <? 2) with false. cbv iota.
+  rewrite span_stop by (auto; reflexivity). apply nonempty_true_iff in Np. rewrite Np.
+  rewrite (opt_group_take c_minus xs (c_plus :: xt) Hs Ns) by (right; eauto).
+  replace (c_plus :: xt) with (c_plus :: xt ++ []) by (now rewrite app_nil_r).
+  rewrite (opt_group_take c_plus xt [] Ht Nt) by (now left).
+  apply nonempty_true_iff in Ns. now rewrite Ns.
+Qed.
+
+Lemma split_ps xp xs :
+  forallb notpm xp = true -> xp <> [] -> forallb notpm xs = true -> xs <> [] ->
+  split_version (xp ++ c_minus :: xs) = Ok (xp, xs, []).
+Proof.
+  intros Hp Np Hs Ns.
+  rewrite split_version_nonnil by (destruct xp; [congruence|discriminate]).
+  rewrite split_on_app by (now apply notpm_no_minus).
+  rewrite split_on_nodelim by (now apply notpm_no_minus).
+  cbn [length]. change (2 <? 2) with false. cbv iota.
+  rewrite span_stop by (auto; reflexivity). apply nonempty_true_iff in Np. rewrite Np.
+  replace (c_minus :: xs) with (c_minus :: xs ++ []) by (now rewrite app_nil_r).
+  rewrite (opt_group_take c_minus xs [] Hs Ns) by (now left).
+  cbn [opt_group]. apply nonempty_true_iff in Ns. now rewrite Ns.
+Qed.
+
+Lemma split_pt xp xt :
+  forallb notpm xp = true -> xp <> [] -> forallb notpm xt = true -> xt <> [] ->
+  split_version (xp ++ c_plus :: xt) = Ok (xp, [], xt).
+Proof.
+  intros Hp Np Ht Nt.
+  rewrite split_version_nonnil by (destruct xp; [congruence|discriminate]).
+  rewrite split_on_nodelim.
+  2:{ rewrite mem_ascii_app, (notpm_no_minus _ Hp). cbn [mem_ascii orb].
+      change (ascii_eqb c_minus c_plus) with false. cbv iota. now apply notpm_no_minus. }
+  cbn [length]. change (2 <? 1) with false. cbv iota.
+  rewrite span_stop by (auto; reflexivity). apply nonempty_true_iff in Np. rewrite Np.
+  assert (O : opt_group c_minus (c_plus :: xt) = ([], c_plus :: xt)) by reflexivity. rewrite O.
+  replace (c_plus :: xt) with (c_plus :: xt ++ []) by (now rewrite app_nil_r).
+  rewrite (opt_group_take c_plus xt [] Ht Nt) by (now left).
+  apply nonempty_true_iff in Nt. rewrite Nt. now rewrite orb_true_r.
+Qed.
+
+Lemma cname_split pp sp tp :
+  wf_cname (pp, sp, tp) ->
+  split_version (print_cname (pp, sp, tp)) = Ok (print_part pp, print_opt sp, print_opt tp).
+Proof.
+  intros (Wp & Ws & Wt). cbn [print_cname print_opt].
+  pose proof (part_notpm _ Wp) as Hp. pose proof (part_nonempty _ Wp) as Np.
+  destruct sp as [s|], tp as [t|]; cbn [wf_opt print_opt] in *.
+  - apply split_pst; auto using part_notpm, part_nonempty.
+  - rewrite app_nil_r. apply split_ps; auto using part_notpm, part_nonempty.
+  - cbn [app]. apply split_pt; auto using part_notpm, part_nonempty.
+  - cbn [app]. rewrite app_nil_r. now apply part_split.
+Qed.
+
+(* ---------------------------------------------------------------- components of conventional parts *)
+
+Lemma py_int_digits d : all_digits d = true -> py_int d = Some (Z.of_N (num_of_digits d)).
+Proof.
+  intro D. destruct (all_digits_head d D) as [c [r [-> Hc]]]. unfold py_int.
+  now rewrite (digit_not_minus c Hc), (digit_not_plus c Hc), D.
+Qed.
+
+Lemma decomp_digits d : all_digits d = true -> decomp d = None.
+Proof.
+  intro D. destruct (all_digits_head d D) as [c [r [-> Hc]]]. unfold decomp.
+  rewrite span_nil_head by (unfold not_digit; now rewrite Hc). reflexivity.
+Qed.
+
+Lemma alpha_all_not_digit l : forallb is_alpha l = true -> forallb not_digit l = true.
+Proof. apply forallb_impl. intros c H. unfold not_digit. now rewrite (alpha_not_digit c H). Qed.
+
+Lemma decomp_letters l d :
+  l <> [] -> forallb is_alpha l = true -> all_digits d = true -> decomp (l ++ d) = Some (l, d).
+Proof. intros N L D. apply decomp_intro; auto using alpha_all_not_digit. Qed.
+
+Lemma py_int_letters l d : l <> [] -> forallb is_alpha l = true -> py_int (l ++ d) = None.
+Proof.
+  intros N L. destruct l as [|c l]; [congruence|]. cbn [forallb] in L. apply andb_true_iff in L as [Hc _].
+  cbn [app py_int]. rewrite (alpha_not_minus c Hc), (alpha_not_plus c Hc).
+  unfold all_digits. cbn [forallb nonempty]. now rewrite (alpha_not_digit c Hc).
+Qed.
+
+Lemma alpha_no_meta l : forallb is_alpha l = true -> existsb regex_meta l = false.
+Proof.
+  induction l as [|c l IH]; [reflexivity|]. cbn [forallb existsb]. intro H.
+  apply andb_true_iff in H as [Hc H]. now rewrite (alpha_not_meta c Hc), IH.
+Qed.
+
+Lemma nometa_ld l d : forallb is_alpha l = true -> all_digits d = true -> nometa (l ++ d).
+Proof.
+  intros L D pre dd E. destruct l as [|c l].
+  - cbn [app] in E. rewrite (decomp_digits d D) in E. discriminate.
+  - rewrite decomp_letters in E by (auto; discriminate). inversion E; subst. now apply alpha_no_meta.
+Qed.
+
+Lemma nometa_nil : nometa [].
+Proof. intros pre d E. discriminate. Qed.
+
+Lemma comp_digits d e :
+  all_digits d = true -> all_digits e = true ->
+  cmp_component d e = Ok (true, N.compare (num_of_digits d) (num_of_digits e)).
+Proof.
+  intros D E. rewrite cmp_component_alt by (apply (nometa_ld [] d); auto).
+  rewrite (decomp_digits d D). unfold fallback. rewrite (py_int_digits d D), (py_int_digits e E).
+  now rewrite N2Z.inj_compare.
+Qed.
+
+Lemma str_compare_letters l1 : forall l2 d e,
+  forallb is_alpha l1 = true -> forallb is_alpha l2 = true -> all_digits d = true -> all_digits e = true ->
+  l1 <> l2 -> str_compare (l1 ++ d) (l2 ++ e) = str_compare l1 l2.
+Proof.
+  unfold str_compare.
+  induction l1 as [|c l1 IH]; intros [|c' l2] d e L1 L2 D E N; try congruence.
+  - destruct (all_digits_head d D) as [x [r [-> Hx]]]. cbn [forallb] in L2. apply andb_true_iff in L2 as [Hc _].
+    cbn [app lex_compare]. now rewrite (digit_lt_alpha x c' Hx Hc).
+  - destruct (all_digits_head e E) as [x [r [-> Hx]]]. cbn [forallb] in L1. apply andb_true_iff in L1 as [Hc _].
+    cbn [app lex_compare]. rewrite (ok_anti _ ord_ok_ascii x c). now rewrite (digit_lt_alpha x c Hx Hc).
+  - cbn [forallb] in L1, L2. apply andb_true_iff in L1 as [_ L1]. apply andb_true_iff in L2 as [_ L2].
+    cbn [app lex_compare]. destruct (ascii_compare c c') eqn:C; try reflexivity.
+    apply (ok_eq _ ord_ok_ascii) in C. subst c'. apply IH; auto. congruence.
+Qed.
+
+(* the first components of two parts: equal letters are stripped and the numbers compared,
+   different letters decide as strings *)
+Lemma comp_first l1 d l2 e :
+  forallb is_alpha l1 = true -> forallb is_alpha l2 = true -> all_digits d = true -> all_digits e = true ->
+  cmp_component (l1 ++ d) (l2 ++ e) =
+  Ok (if str_eqb l1 l2 then (true, N.compare (num_of_digits d) (num_of_digits e))
+      else (false, str_compare l1 l2)).
+Proof.
+  intros L1 L2 D E. rewrite cmp_component_alt by (now apply nometa_ld). f_equal.
+  destruct (str_eqb_spec l1 l2) as [<-|N].
+  - destruct l1 as [|c l].
+    + cbn [app]. rewrite (decomp_digits d D). unfold fallback.
+      rewrite (py_int_digits d D), (py_int_digits e E). now rewrite N2Z.inj_compare.
+    + rewrite !decomp_letters by (auto; discriminate). now rewrite str_eqb_refl.
+  - assert (F : fallback (l1 ++ d) (l2 ++ e) = (false, str_compare l1 l2)).
+    { unfold fallback. rewrite <- (str_compare_letters l1 l2 d e) by assumption.
+      destruct l1 as [|c l1].
+      - destruct l2 as [|c' l2]; [congruence|]. rewrite (py_int_letters (c' :: l2)) by (auto; discriminate).
+        now destruct (py_int ([] ++ d)).
+      - now rewrite (py_int_letters (c :: l1)) by (auto; discriminate). }
+    destruct l1 as [|c l1]; [cbn [app]; now rewrite (decomp_digits d D)|].
+    rewrite (decomp_letters (c :: l1)) by (auto; discriminate).
+    destruct l2 as [|c' l2]; [cbn [app]; now rewrite (decomp_digits e E)|].
+    rewrite (decomp_letters (c' :: l2)) by (auto; discriminate).
+    destruct (str_eqb_spec (c :: l1) (c' :: l2)); [contradiction|assumption].
+Qed.
+
+Lemma cmp_loop_digits strict ds : forall es,
+  Forall (fun d => all_digits d = true) ds -> Forall (fun d => all_digits d = true) es ->
+  cmp_loop strict ds es = Ok (lex_compare N.compare (map num_of_digits ds) (map num_of_digits es)).
+Proof.
+  induction ds as [|d ds IH]; intros [|e es] Hd He; try reflexivity.
+  inversion Hd; inversion He; subst. cbn [cmp_loop map lex_compare]. rewrite comp_digits by assumption.
+  destruct (N.compare (num_of_digits d) (num_of_digits e)); [now apply IH| |]; now rewrite andb_false_r.
+Qed.
+
+Lemma wf_rest_digits rest : wf_rest rest -> Forall (fun d => all_digits d = true) (map snd rest).
+Proof. intro W. induction W as [|[s d] rest [_ D] W IH]; constructor; auto. Qed.
+
+Lemma map_num_rest rest : map num_of_digits (map snd rest) = map (fun sd : ascii * str => num_of_digits (snd sd)) rest.
+Proof. now rewrite map_map. Qed.
+
+Lemma cmp_primaries_parts strict p1 p2 :
+  wf_part p1 -> wf_part p2 -> (strict = false \/ fst (fst p1) = fst (fst p2)) ->
+  cmp_primaries strict (print_part p1) (print_part p2) = Ok (pkey_compare (part_key p1) (part_key p2)).
+Proof.
+  destruct p1 as [[l1 d] r1], p2 as [[l2 e] r2]. intros W1 W2 S.
+  unfold cmp_primaries. rewrite !part_components by assumption.
+  destruct W1 as (L1 & _ & D & R1), W2 as (L2 & _ & E & R2).
+  cbn [cmp_loop]. rewrite comp_first by assumption.
+  unfold pkey_compare, part_key. cbn [fst snd lex_compare].
+  destruct (str_eqb_spec l1 l2) as [<-|N].
+  - rewrite (ok_refl _ ord_ok_str). cbn [then_cmp].
+    destruct (N.compare (num_of_digits d) (num_of_digits e)).
+    + rewrite cmp_loop_digits by (now apply wf_rest_digits). now rewrite !map_num_rest.
+    + now rewrite andb_false_r.
+    + now rewrite andb_false_r.
+  - destruct S as [->|S]; [|cbn [fst] in S; contradiction]. cbn [andb].
+    destruct (str_compare l1 l2) eqn:C; try reflexivity.
+    apply (ok_eq _ ord_ok_str) in C. contradiction.
+Qed.
+
+(* ---------------------------------------------------------------- the key order is a total order *)
+
+Lemma ord_ok_ext {A} (c c' : A -> A -> comparison) : (forall a b, c a b = c' a b) -> ord_ok c -> ord_ok c'.
+Proof.
+  intros E [R Q An T]. split.
+  - intro a. rewrite <- E. apply R.
+  - intros a b. rewrite <- E. apply Q.
+  - intros a b. rewrite <- !E. apply An.
+  - intros a b d. rewrite <- !E. apply T.
+Qed.
+
+Lemma ord_ok_pair {A B} (ca : A -> A -> comparison) (cb : B -> B -> comparison) :
+  ord_ok ca -> ord_ok cb ->
+  ord_ok (fun x y : A * B => then_cmp (ca (fst x) (fst y)) (cb (snd x) (snd y))).
+Proof.
+  intros [Ra Ea Aa Ta] [Rb Eb Ab Tb]. split.
+  - intros [a b]. cbn. now rewrite Ra, Rb.
+  - intros [a b] [a' b']. cbn. destruct (ca a a') eqn:C; cbn; try discriminate.
+    intro H. apply Ea in C. apply Eb in H. now subst.
+  - intros [a b] [a' b']. cbn. rewrite (Aa a a'), (Ab b b'). now destruct (ca a a').
+  - intros [a b] [a' b'] [a'' b'']. cbn.
+    destruct (ca a a') eqn:C1; cbn; try discriminate.
+    + apply Ea in C1. subst a'. destruct (ca a a''); cbn; auto. apply Tb.
+    + intros _. destruct (ca a' a'') eqn:C2; cbn; try discriminate.
+      * apply Ea in C2. subst a''. now rewrite C1.
+      * now rewrite (Ta a a' a'' C1 C2).
+Qed.
+
+Lemma ord_ok_pkey : ord_ok pkey_compare.
+Proof. apply (ord_ok_pair str_compare (lex_compare N.compare)); [apply ord_ok_str|apply ord_ok_lex, ord_ok_N]. Qed.
+
+Lemma ord_ok_sec : ord_ok sec_compare.
+Proof.
+  destruct ord_ok_pkey as [R E An T]. split.
+  - intros [a|]; cbn; auto.
+  - intros [a|] [b|]; cbn; try discriminate; auto. intro H. f_equal. now apply E.
+  - intros [a|] [b|]; cbn; auto.
+  - intros [a|] [b|] [d|]; cbn; try discriminate; auto. apply T.
+Qed.
+
+Lemma ord_ok_ter : ord_ok ter_compare.
+Proof.
+  destruct ord_ok_pkey as [R E An T]. split.
+  - intros [a|]; cbn; auto.
+  - intros [a|] [b|]; cbn; try discriminate; auto. intro H. f_equal. now apply E.
+  - intros [a|] [b|]; cbn; auto.
+  - intros [a|] [b|] [d|]; cbn; try discriminate; auto. apply T.
+Qed.
+
+Lemma ord_ok_key : ord_ok key_compare.
+Proof.
+  eapply ord_ok_ext; [|apply (ord_ok_pair _ _ (ord_ok_pair _ _ ord_ok_pkey ord_ok_sec) ord_ok_ter)].
+  intros [[p1 s1] t1] [[p2 s2] t2]. cbn. now destruct (pkey_compare p1 p2).
+Qed.
+
+(* ---------------------------------------------------------------- the refinement *)
+
+Lemma sec_ter_nil (rec : str -> str -> res comparison) : sec_ter rec [] [] [] [] = Ok Eq.
+Proof. reflexivity. Qed.
+
+(* what stdCompare does with two primaries that are conventional parts *)
+Lemma prim_stage strict p1 p2 (R : res comparison) :
+  wf_part p1 -> wf_part p2 -> (strict = false \/ fst (fst p1) = fst (fst p2)) ->
+  (if str_eqb (print_part p1) (print_part p2) then R
+   else match cmp_primaries strict (print_part p1) (print_part p2) with
+        | Ok Eq => R
+        | r => r
+        end) =
+  match pkey_compare (part_key p1) (part_key p2) with Eq => R | c => Ok c end.
+Proof.
+  intros W1 W2 S. pose proof (cmp_primaries_parts strict p1 p2 W1 W2 S) as C.
+  destruct (str_eqb_spec (print_part p1) (print_part p2)) as [E|N].
+  - pose proof (cmp_primaries_parts strict p1 p1 W1 W1 (or_intror eq_refl)) as C'.
+    rewrite (ok_refl _ ord_ok_pkey) in C'. rewrite <- E, C' in C. inversion C as [K]. reflexivity.
+  - rewrite C. now destruct (pkey_compare (part_key p1) (part_key p2)).
+Qed.
+
+Lemma scmp_part a b :
+  wf_part a -> wf_part b ->
+  scmp true false (print_part a) (print_part b) = Ok (pkey_compare (part_key a) (part_key b)).
+Proof.
+  intros Wa Wb. rewrite scmp_unfold, !part_split by assumption. rewrite sec_ter_nil.
+  rewrite (prim_stage false a b (Ok Eq) Wa Wb (or_introl eq_refl)).
+  now destruct (pkey_compare (part_key a) (part_key b)).
+Qed.
+
+Lemma str_eqb_nonnil_nil x : x <> [] -> str_eqb x [] = false /\ str_eqb [] x = false.
+Proof. destruct x; [congruence|]. auto. Qed.
+
+Lemma scmp_part_nil a : wf_part a ->
+  scmp true false (print_part a) [] = Ok Gt /\ scmp true false [] (print_part a) = Ok Lt.
+Proof.
+  intro W. pose proof (part_nonempty a W) as N. destruct (str_eqb_nonnil_nil _ N) as [E1 E2].
+  rewrite !scmp_unfold, !part_split by assumption.
+  change (split_version []) with (@Ok (str * str * str) ([], [], [])). cbv iota beta. rewrite E1, E2.
+  unfold cmp_primaries. destruct a as [[l d] rest]. rewrite part_components by assumption.
+  destruct W as (L & _ & D & _).
+  assert (Nx : l ++ d <> []) by (apply all_digits_forall in D as [_ D]; destruct l; [exact D|discriminate]).
+  change (split_dotus []) with [@nil ascii]. cbn [cmp_loop].
+  rewrite (cmp_component_alt (l ++ d) []) by (now apply nometa_ld).
+  rewrite (cmp_component_alt [] (l ++ d)) by apply nometa_nil.
+  change (decomp []) with (@None (str * str)).
+  assert (F1 : fallback (l ++ d) [] = (false, Gt)).
+  { unfold fallback. change (py_int []) with (@None Z). destruct (l ++ d); [congruence|]. now destruct (py_int _). }
+  assert (F2 : fallback [] (l ++ d) = (false, Lt)).
+  { unfold fallback. change (py_int []) with (@None Z). destruct (l ++ d); [congruence|reflexivity]. }
+  split.
+  - destruct (decomp (l ++ d)) as [[? ?]|]; now rewrite F1.
+  - now rewrite F2.
+Qed.
+
+Lemma scmp_ter t1 t2 :
+  wf_opt t1 -> wf_opt t2 ->
+  scmp true false (print_opt t1) (print_opt t2) =
+  Ok (ter_compare (option_map part_key t1) (option_map part_key t2)).
+Proof.
+  intros W1 W2. destruct t1 as [a|], t2 as [b|]; cbn [print_opt option_map ter_compare wf_opt] in *.
+  - now apply scmp_part.
+  - now apply scmp_part_nil.
+  - now apply scmp_part_nil.
+  - apply scmp_nil.
+Qed.
+
+Lemma nonempty_print a : wf_part a -> nonempty (print_part a) = true.
+Proof. intro W. apply nonempty_true_iff. now apply part_nonempty. Qed.
+
+Lemma sec_ter_stage s1 t1 s2 t2 :
+  wf_opt s1 -> wf_opt t1 -> wf_opt s2 -> wf_opt t2 ->
+  sec_ter (scmp true false) (print_opt s1) (print_opt t1) (print_opt s2) (print_opt t2) =
+  Ok (then_cmp (sec_compare (option_map part_key s1) (option_map part_key s2))
+               (ter_compare (option_map part_key t1) (option_map part_key t2))).
+Proof.
+  intros Ws1 Wt1 Ws2 Wt2. pose proof (scmp_ter t1 t2 Wt1 Wt2) as T. unfold sec_ter.
+  destruct s1 as [a|], s2 as [b|]; cbn [print_opt option_map sec_compare wf_opt nonempty] in *;
+    rewrite ?nonempty_print by assumption; cbn [orb andb nonempty then_cmp]; try reflexivity.
+  - rewrite scmp_part by assumption. destruct (pkey_compare (part_key a) (part_key b)); cbn [then_cmp]; auto.
+  - destruct t1 as [c|], t2 as [d|]; cbn [print_opt nonempty wf_opt] in *;
+      rewrite ?nonempty_print by assumption; cbn [orb]; auto.
+Qed.
+
+Lemma scmp_cname strict c1 c2 :
+  wf_cname c1 -> wf_cname c2 ->
+  (strict = false \/ fst (fst (fst (fst c1))) = fst (fst (fst (fst c2)))) ->
+  scmp true strict (print_cname c1) (print_cname c2) = Ok (key_compare (cname_key c1) (cname_key c2)).
+Proof.
+  destruct c1 as [[p1 s1] t1], c2 as [[p2 s2] t2]. intros W1 W2 S. cbn [fst] in S.
+  rewrite scmp_unfold, !cname_split by assumption.
+  destruct W1 as (Wp1 & Ws1 & Wt1), W2 as (Wp2 & Ws2 & Wt2).
+  rewrite sec_ter_stage by assumption.
+  rewrite (prim_stage strict p1 p2 _ Wp1 Wp2 S).
+  cbn [cname_key key_compare]. now destruct (pkey_compare (part_key p1) (part_key p2)).
+Qed.
+
+(* the refinement theorem in both modes *)
+Lemma cmp_key_order a b :
+  conv a = true -> conv b = true -> version_cmp a b = Ok (key_compare (key a) (key b)).
+Proof.
+  intros Ca Cb. destruct (conv_spec a Ca) as [c1 (W1 & P1 & K1)]. destruct (conv_spec b Cb) as [c2 (W2 & P2 & K2)].
+  unfold version_cmp. rewrite std_compare_scmp, K1, K2, <- P1, <- P2. apply scmp_cname; auto.
+Qed.
+
+Lemma prefix_of_cname v c : key v = cname_key c -> prefix_of v = fst (fst (fst (fst c))).
+Proof. unfold prefix_of. intros ->. now destruct c as [[[[l d] r] s] t]. Qed.
+
+Lemma cmp_strict_key_order a b :
+  conv a = true -> conv b = true -> prefix_of a = prefix_of b ->
+  version_cmp_strict a b = Ok (key_compare (key a) (key b)).
+Proof.
+  intros Ca Cb Hp. destruct (conv_spec a Ca) as [c1 (W1 & P1 & K1)]. destruct (conv_spec b Cb) as [c2 (W2 & P2 & K2)].
+  rewrite (prefix_of_cname a c1 K1), (prefix_of_cname b c2 K2) in Hp.
+  unfold version_cmp_strict. rewrite std_compare_scmp, K1, K2, <- P1, <- P2. apply scmp_cname; auto.
+Qed.
+
+(* ---------------------------------------------------------------- shapes used by the corollaries *)
+
+Lemma version_cmp_printed c1 c2 :
+  wf_cname c1 -> wf_cname c2 ->
+  version_cmp (print_cname c1) (print_cname c2) = Ok (key_compare (cname_key c1) (cname_key c2)).
+Proof. intros W1 W2. unfold version_cmp. rewrite std_compare_scmp. apply scmp_cname; auto. Qed.
+
+Lemma print_cname_part p : print_cname (p, None, None) = print_part p.
+Proof. cbn [print_cname]. now rewrite !app_nil_r. Qed.
+
+Lemma wf_cname_part p : wf_part p -> wf_cname (p, None, None).
+Proof. intro W. cbn. auto. Qed.
+
+Lemma lex_compare_snoc {A} (c : A -> A -> comparison) a x y :
+  ord_ok c -> lex_compare c (a ++ [x]) (a ++ [y]) = c x y.
+Proof.
+  intro H. induction a as [|z a IH]; cbn [app lex_compare].
+  - now destruct (c x y).
+  - now rewrite (ok_refl c H).
+Qed.
+
+Lemma lex_compare_longer {A} (c : A -> A -> comparison) a y :
+  ord_ok c -> lex_compare c a (a ++ [y]) = Lt.
+Proof.
+  intro H. induction a as [|z a IH]; cbn [app lex_compare]; [reflexivity|]. now rewrite (ok_refl c H).
+Qed.
+
+Definition part_snoc (p : part) (s : ascii) (d : str) : part :=
+  let '(l, d0, rest) := p in (l, d0, rest ++ [(s, d)]).
+
+Lemma wf_part_snoc p s d : wf_part p -> is_sep s = true -> all_digits d = true -> wf_part (part_snoc p s d).
+Proof.
+  destruct p as [[l d0] rest]. intros (L & M & D & W) S Dd. cbn. repeat split; auto.
+  apply Forall_app. split; [assumption|]. constructor; [split; assumption|constructor].
+Qed.
+
+Lemma print_part_snoc p s d : print_part (part_snoc p s d) = print_part p ++ s :: d.
+Proof.
+  destruct p as [[l d0] rest]. cbn [part_snoc print_part]. rewrite flat_map_app. cbn [flat_map fst snd].
+  now rewrite app_nil_r, <- !app_assoc.
+Qed.
+
+Lemma part_key_snoc p s d :
+  part_key (part_snoc p s d) = (fst (part_key p), snd (part_key p) ++ [num_of_digits d]).
+Proof.
+  destruct p as [[l d0] rest]. cbn [part_snoc part_key fst snd]. now rewrite map_app.
+Qed.
+
+Lemma then_cmp_eq_r c : then_cmp c Eq = c.
+Proof. now destruct c. Qed.
